@@ -413,6 +413,13 @@ def plan(tier):
             # the full rows x columns cross product (8e5 expressions) only for two geometries in the thorough tier
             full = tier == "thorough" and (tc, L, P) in (("IU2", 4, 3), ("C*8", 3, 1)) and rpc in (1, 2, L + 1)
             cases += list(batches(tc, L, P, rpc, depth1_ops(L, P, tier, full), size=400 if not full else 4000))
+    # longer images: several line groups per selection, strides up to 7 against group sizes 2..8
+    mid = [("IU2", 11, 2, (3, 4))] if tier == "quick" else [("IU2", 11, 2, (2, 3, 4, 5, 8)), ("C*8", 13, 2, (2, 3, 4, 5, 6, 7, 8)), ("IU2", 16, 1, (4, 8))]
+    for tc, L, P, rpcs in mid:
+        rows = ints(L) + slices(L, steps=(None, 1, -1, 2, -2, 3, -3, 4, -4, 5, -5, 7, -7)) + arrays(L) + (masks(L) if L <= 13 else [])
+        ops = [["isel", r, None] for r in rows] + [["isel", r, ["i", P - 1]] for r in rows[:: 7]]
+        for rpc in rpcs:
+            cases += list(batches(tc, L, P, rpc, ops, size=1500))
     return cases
 
 
@@ -430,12 +437,12 @@ def run(res, tier, seed):
     res.rule = (
         "depth 1: full per-axis alphabet (ints, slices with bounds None|-n-1..n+1 and steps None|+-1|+-2|+-3, int arrays len<=2 + [],"
         " all boolean masks) on rows x (all | 8 representative) column expressions, columns alone with the full alphabet,"
-        " getitem/sel spellings and pointwise pairs; depth 2-3: BFS over chains of single-axis steps, state = effective"
+        " getitem/sel spellings and pointwise pairs; 11..16-line images with strides up to +-7 against line groups of 2..8; depth 2-3: BFS over chains of single-axis steps, state = effective"
         " selection (dims, shape, selected values of a position-coded twin); fault-retry: a transient read error injected at the 1st/2nd/3rd"
         " read of a load (after an earlier successful load), then the same and other selections must still equal the twin. A batch is non-trivial if at least one"
         " expression is accepted by the in-memory twin (out-of-bounds expressions must raise on both sides)."
     )
-    res.assumptions = ["xarray's lazy indexing adapter is trusted to decompose indexers; images <= 5x3"]
+    res.assumptions = ["xarray's lazy indexing adapter is trusted to decompose indexers; images <= 5x3 for the full alphabet, <= 16 lines for the rows alphabet"]
     n_expr = n_ok = n_raise = 0
     for idx, case, out in core.pool_map(__name__, "execute", plan(tier), chunksize=2):
         small = {k: case[k] for k in ("type", "L", "P", "rpc")}
